@@ -31,7 +31,7 @@ type Contract struct {
 	Results []string
 	Clauses []*Clause
 	Serves  []string // properties whose cone contains this contract as a whole
-	Trusted bool // "trusted": contract is assumed, body not verified (listed in evidence)
+	Trusted bool     // "trusted": contract is assumed, body not verified (listed in evidence)
 	Layer   string
 	File    string
 	Line    int
